@@ -6,6 +6,7 @@ The deductive part (every rule regex is compiled case-insensitively) lives in co
 class BoundedPreprocessUnit:
     kind = "bounded"
     name = "ctparse._preprocess_string[bounded]"
+    qualnames = ["ctparse._preprocess_string"]
     props = {"C11", "C10"}
     cost = 10
 
